@@ -323,6 +323,11 @@ func (i *Interpreter) eval(expr ast.Expr, env *environment.Environment, isRepl b
 			return nil, &ControlFlowSignal{Type: ControlFlowNone, LineNumber: 0} // Stop execution if a runtime error occurred during evaluation
 		}
 
+		if containsItself(value) {
+			utils.RuntimeError(token.Token{Line: e.Line}, "Cannot print a value that contains itself.")
+			return nil, &ControlFlowSignal{Type: ControlFlowNone, LineNumber: 0}
+		}
+
 		if val, ok := value.([]rune); ok {
 			s := string(val)
 			fmt.Println(norm.NFC.String(s))
@@ -337,6 +342,9 @@ func (i *Interpreter) eval(expr ast.Expr, env *environment.Environment, isRepl b
 
 		if signal.Type != ControlFlowNone {
 			return nil, signal
+		}
+		if isRepl && !utils.HadRuntimeError && containsItself(value) {
+			utils.RuntimeError(token.Token{Line: e.Line}, "Cannot print a value that contains itself.")
 		}
 		if isRepl && !utils.HadRuntimeError {
 			if val, ok := value.([]rune); ok {
@@ -995,6 +1003,48 @@ func getLineNumber(expr ast.Expr) int {
 	default:
 		return 0 // Return 0 if line number is not available
 	}
+}
+
+// containsItself reports whether an array or object can be reached from
+// itself through its elements or properties. Such a value has no finite text:
+// formatting it would recurse until the stack is exhausted.
+func containsItself(value interface{}) bool {
+	type container struct {
+		data   uintptr
+		length int
+	}
+	onPath := map[container]bool{}
+	var reaches func(v interface{}) bool
+	reaches = func(v interface{}) bool {
+		var children []interface{}
+		var id container
+		switch c := v.(type) {
+		case []interface{}:
+			if len(c) == 0 {
+				return false
+			}
+			id, children = container{reflect.ValueOf(c).Pointer(), len(c)}, c
+		case map[string]interface{}:
+			id = container{reflect.ValueOf(c).Pointer(), -1}
+			for _, child := range c {
+				children = append(children, child)
+			}
+		default:
+			return false
+		}
+		if onPath[id] {
+			return true
+		}
+		onPath[id] = true
+		for _, child := range children {
+			if reaches(child) {
+				return true
+			}
+		}
+		delete(onPath, id)
+		return false
+	}
+	return reaches(value)
 }
 
 func stringify(value interface{}) string {
